@@ -37,6 +37,9 @@ pub fn check<K: Kmer + Send + Sync, P: PayKind>(c: &GCase) -> CheckResult {
             (nodes_of_base(&g), pruned)
         }
         e => {
+            // C02 is stated for input whose extensions reference only present k-mers: the unpruned
+            // sorted-slice entry point is therefore replaced by the pruned one here
+            let e = if e == Entry3::SortedSliceRaw { Entry3::SortedSlice } else { e };
             let (g, seen) = build_base::<K, P>(&reads, c.stranded, c.min_count(), e)?;
             (nodes_of_base(&g), seen)
         }
